@@ -384,7 +384,7 @@ def gen(k: int, tier: str) -> dict[str, Any]:
     if rs.random() < 0.25 and scn["project"].get("argv_mode") != "dir":
         # the plugins snapshot is part of the cache validity protocol: the faulted run follows a plugin change
         n0 = rs.randint(0, 5)
-        scn["project"] = dict(scn["project"], plugin=n0)
+        scn["project"] = dict(scn["project"], plugin=n0, plugin_wide=True)
         scn["steps"] = [dict(st) for st in scn["steps"]]
         scn["steps"][-1]["edits"] = list(scn["steps"][-1]["edits"]) + [{"e": "plugin", "mod": "m0", "value": n0 + rs.choice([1, 2])}]
         scn["plug"] = True
